@@ -260,6 +260,41 @@ def pairs_fastcc(model, sub_ids, threshold, flip):
     return out
 
 
+def pairs_deletions(model, rids, method):
+    """single_reaction_deletion, serial: one solve per requested reaction, on the content with that reaction closed."""
+    from cobra.flux_analysis import single_reaction_deletion
+    kw = {}
+    ref = None
+    if method == "linear moma":
+        ref = pfba_reference(model)
+        kw["solution"] = ref
+    nets = []
+    for rid in rids:
+        with model:
+            model.reactions.get_by_id(rid).knock_out()
+            nets.append(net_json(model))
+    with capture() as got:
+        single_reaction_deletion(model, reaction_list=rids, method=method, processes=1, **kw)
+    steps = got[-len(rids):]
+    # the deletions run in the order of a set of frozensets, not in the order requested: pair each solve with a requested deletion whose
+    # predicted problem it equals; what cannot be paired that way is paired in order and shows up as a difference
+    refl = [canon.num(float(ref.fluxes[r.id])) for r in model.reactions] if ref is not None else None
+    lines = [({"net": net, "build": "moma", "old": "moma_old_objective", "ref": refl} if method == "linear moma" else {"net": net, "build": "fba"})
+             for net in nets]
+    preds = predicted(lines)
+    left = list(range(len(rids)))
+    out, unpaired = [], []
+    for dump in steps:
+        k = next((k for k in left if not diff(preds[k], dump)), None)
+        if k is None:
+            unpaired.append(dump)
+        else:
+            left.remove(k)
+            out.append((lines[k], dump))
+    out += [(lines[k], dump) for k, dump in zip(left, unpaired)]
+    return out
+
+
 def compare(pairs, label: str, stats: dict, broken: list, case=None):
     """Run the builder lines through the Lean driver and diff with what was captured.  Mismatches go to `broken` (a correspondence
     that no longer holds is not by itself a violation: the caller searches for a failing input)."""
@@ -276,3 +311,62 @@ def compare(pairs, label: str, stats: dict, broken: list, case=None):
                 broken.append({"kind": "correspondence", "name": f"AuxM.Net.{line['build']} (lean/CobraModel/Model/AuxProb.lean) vs the problem cobrapy hands to GLPK in {label}",
                                "detail": d, "builder_call": {k: v for k, v in line.items() if k != "net"}, "net": line["net"], "case": case})
     return bad
+
+
+# ---------------------------------------------------------------------------------------
+# stages used by the property checks
+# ---------------------------------------------------------------------------------------
+
+SCAN = ["CobraModel/Lemmas/AuxProb.lean", "CobraModel/Model/AuxProb.lean", "CobraModel/Lemmas/SplitRange.lean"]
+
+
+def stage(ctx, plan, gen_spec, n_specs, build=None):
+    """Captured-problem correspondence for one property.  plan: [(label, fn(make_model, spec, rng) -> pairs)].
+    Uses its own PRNG (derived from the run's seed) so that the oracle's case stream is what it was.  Returns the specs on
+    which a builder and the captured problem differ, with the label, for the directed failing-input search."""
+    import random
+    import warnings
+    import coreops
+    build = build or coreops.build_model
+    rng = random.Random(f"aux-{ctx.pid}-{ctx.seed}-{ctx.attempt}")
+    stats, broken, errors, mism = {}, [], {}, []
+    for _ in range(n_specs):
+        spec = gen_spec(rng)
+        for label, fn in plan:
+            try:
+                with warnings.catch_warnings():
+                    warnings.simplefilter("ignore")
+                    pairs = fn(lambda: build(spec), spec, rng)
+                bad = compare(pairs, label, stats, broken, case=spec)
+                if bad:
+                    mism.append({"spec": spec, "label": label, "diff": bad[0]})
+            except Exception as e:      # the analysis refused the model (infeasible, unbounded …): nothing was built, nothing to compare
+                k = f"{label}: {type(e).__name__}"
+                errors[k] = errors.get(k, 0) + 1
+    ctx.broken += broken
+    ctx.coverage["captured_problem_correspondence"] = {
+        "compared": stats, "models": n_specs, "not_built": errors, "mismatches": len(mism),
+        "rule": "whole solver problem predicted by the Lean builder (lean/CobraModel/Model/AuxProb.lean) vs the raw GLPK problem read at the "
+                "moment cobrapy asks for the solve: variables, boxes, kinds, row names, row bounds, coefficients, objective, direction (exact rationals)",
+    }
+    return mism
+
+
+def pfba_reference(model, dyadic=False):
+    """A pFBA solution of the model, clipped into the bounds (GLPK noise) — and snapped to eighths when `dyadic`, so that the
+    float arithmetic add_room performs on it is exact."""
+    from cobra.flux_analysis import pfba
+    ref = pfba(model)
+    for r in model.reactions:
+        v = float(ref.fluxes[r.id])
+        if dyadic:
+            v = round(v * 8) / 8
+        ref.fluxes[r.id] = min(max(v, r.lower_bound), r.upper_bound)
+    return ref
+
+
+def knocked(model, rng, p=0.7):
+    if rng.random() < p and len(model.reactions):
+        r = rng.choice(list(model.reactions))
+        r.bounds = (0, 0)
+    return model
